@@ -98,7 +98,8 @@ fn gen_poly(rng: &mut Rng, range: i64) -> Vec<QOp> {
     let mut ops = Vec::new();
     let nsub = 1 + rng.below(3);
     let c = |rng: &mut Rng| -> i64 {
-        if rng.chance(0.7) {
+        // (whole pixels mostly - except in the large range, where every bit of a coordinate is wanted)
+        if rng.chance(0.7) && range < 1000 {
             rng.int(0, range / 4) * 4
         } else {
             rng.int(0, range)
@@ -193,12 +194,36 @@ pub fn run(ctx: &Ctx) -> Outcome {
     });
     run_cases(ctx, &mut out, SubSpec { name: "random_grid_polygons", cases: ctx.n(300_000, 5_000_000), exhaustive: false, max_secs: secs }, |i, want, st| {
         let mut rng = ctx.rng("random_grid_polygons", i);
-        let range = *rng.pick(&[16i64, 32, 48]);
+        // one case in ten with coordinates of 13 bits (quarter units out to 2000 px): the products in a side-of-line
+        // test then need 26 bits. A point exactly on a segment still gives two equal products, however they are
+        // rounded; points next to a long edge are within the rounding of f32 and not asked about.
+        let big = rng.chance(0.1);
+        let range = if big { *rng.pick(&[4099i64, 8191, 6001]) } else { *rng.pick(&[16i64, 32, 48]) };
         let ops = gen_poly(&mut rng, range);
+        // (in the large range every coordinate is a multiple of 8 units, so that the points an eighth, a quarter, ...
+        // of the way along a side are grid points whose offsets from the side's start keep all their bits)
+        let ops: Vec<QOp> = if big { ops.iter().map(|o| match *o { QOp::Move(x, y) => QOp::Move(8 * x, 8 * y), QOp::Line(x, y) => QOp::Line(8 * x, 8 * y), QOp::Close => QOp::Close }).collect() } else { ops };
         let evenodd = rng.chance(0.5);
         // query points: random grid points plus points derived from the vertices
-        let mut queries: Vec<(i64, i64)> = (0..12).map(|_| (rng.int(-4, range + 4), rng.int(-4, range + 4))).collect();
+        let mut queries: Vec<(i64, i64)> = if big { Vec::new() } else { (0..12).map(|_| (rng.int(-4, range + 4), rng.int(-4, range + 4))).collect() };
         let verts: Vec<(i64, i64)> = ops.iter().filter_map(|o| match o { QOp::Move(x, y) | QOp::Line(x, y) => Some((*x, *y)), _ => None }).collect();
+        if big {
+            st.add("polygons_with_13_bit_coordinates", 1);
+            for w in verts.windows(2) {
+                let (a, b) = (w[0], w[1]);
+                queries.push(a);
+                for num in 1..8i64 {
+                    queries.push((a.0 + (b.0 - a.0) * num / 8, a.1 + (b.1 - a.1) * num / 8));
+                }
+            }
+        }
+        if big {
+            // (pairs of vertices that belong to different subpaths are not segments: only points the exact test
+            // finds on a segment are asked about)
+            let segs = segments(&ops);
+            queries.retain(|q| exact(&segs, q.0, q.1).0);
+        }
+        let verts: Vec<(i64, i64)> = if big { Vec::new() } else { verts };
         for v in &verts {
             queries.push(*v);                                 // on a vertex
             queries.push((rng.int(-4, range + 4), v.1));      // level with a vertex
@@ -216,7 +241,7 @@ pub fn run(ctx: &Ctx) -> Outcome {
         let answers: Vec<bool> = queries.iter().map(|q| path.contains_point(0.1, q.0 as f32 / 4., q.1 as f32 / 4.)).collect();
         co.nontrivial = answers.iter().any(|a| *a) && answers.iter().any(|a| !*a);
         // the same polygon and queries at another power-of-two scale (tiny and large coordinates)
-        let unit = *rng.pick(&[0.25f32, 0.25, 1.0, 64.0, 1.0 / 1024., 1.0 / 65536., 1.0 / 1048576.]);
+        let unit = if big { *rng.pick(&[1.0f32 / 32., 1.0 / 8., 1.0 / 1024.]) } else { *rng.pick(&[0.25f32, 0.25, 1.0, 64.0, 1.0 / 1024., 1.0 / 65536., 1.0 / 1048576.]) };
         st.add(&format!("unit:{}", unit), 1);
         if let Some(v) = check_queries_scaled(&ops, evenodd, &queries, st, unit) {
             co.viol("C17", format!("(grid unit {}) {}", unit, v));
